@@ -433,10 +433,10 @@ void run_big(const Plan &p, int count) {
 template<typename K, size_t Eps, size_t EpsRec, typename F>
 void run_binary_path(const Plan &p, int count, size_t nmin) {
     Rng rng(p.seed ^ 0xb1a ^ (Eps * 17 + EpsRec));
-    const std::vector<std::string> kinds = {"steps", "runs_uniform", "collinear"};
-    for (int i = 0; i < (p.tier == "quick" ? count : 3 * count); ++i) {
+    const std::vector<std::string> kinds = {"clusters_big", "steps", "runs_uniform", "collinear"};
+    for (int i = 0; i < (p.tier == "quick" ? count + 1 : 3 * count); ++i) {
         size_t n = nmin + rng.below(nmin / 2);
-        ExecPlan pl{kinds[(size_t) i % kinds.size()], n, 3 + (i % 2), 0, false, {"binary_path_many_segments", kinds[(size_t) i % kinds.size()]}, rng.next(), {}};
+        ExecPlan pl{kinds[(size_t) i % kinds.size()], n, i % 4 == 0 ? 0 : 3 + (i % 2), 0, false, {"binary_path_many_segments", kinds[(size_t) i % kinds.size()]}, rng.next(), {}};
         run_exec<K, Eps, EpsRec, F>(pl);
     }
 }
